@@ -15,7 +15,8 @@ def add(pid, cat, technique, text, note, ref):
 add("C20", "exploration",
     "shadow-registry runtime monitor + Go race detector + checkptr over stress workloads in child processes",
     "Held on the executions observed: millions of Malloc/Free/hand-over operations from 1..16 goroutines at GOMAXPROCS 1/2/4/16 "
-    "plus defragmentation rounds, every live allocation pattern-, header-, disjointness- and count-checked at barriers, in a checkptr build and a -race build.",
+    "plus defragmentation rounds, every live allocation pattern-, header-, disjointness- and count-checked at barriers, in a checkptr build and a -race build. "
+    "Integration part: the real lib/chain + lib/utxo on top of the allocator (wired like client/common/config.go) over a history that pushes one size class above the defragmenter's 12 MB threshold: UTXO set = reference after every delivery and every defragmentation pass (records moved), relocation callback checked, live count = allocations the database holds.",
     "Trusts the monitor's registry (sharded per goroutine, merged at barriers). mmap'ed slot memory has no race-detector shadow; allocator metadata on the Go heap does.",
     "DESIGN.md §3 C20")
 
